@@ -187,11 +187,12 @@ def run_property(prop: str, repo: str, tier: str = "quick", ctx: Optional[Ctx] =
         run.rule_descs[rd.rid] = "[%s] %s" % (rd.kind, rd.desc)
         try:
             obs = list(rd.fn(ctx))
-            if len(obs) < rd.floor:
-                raise AnalysisError("rule matched %d instance(s), fewer than the confirmed floor %d"
-                                    % (len(obs), rd.floor))
             run.obligations.extend(obs)
             run.rule_instances[rd.rid] = len(obs)
+            if len(obs) < rd.floor:
+                # positively identified violations are still reported; the shortfall itself is an analysis error
+                raise AnalysisError("rule matched %d instance(s), fewer than the confirmed floor %d"
+                                    % (len(obs), rd.floor))
         except AnalysisError as e:
             run.errors.append("%s/%s: %s" % (prop, rd.rid, e))
         except RecursionError as e:  # pragma: no cover
